@@ -85,6 +85,13 @@ type Input struct {
 	// whether oras could re-open the layout from disk at the end (measured, see README: oras'
 	// loader fails on a manifest whose subject descriptor states a wrong size for existing content)
 	ReopenOk bool `json:"reopenOk"`
+	// concurrency stage: pushes issued concurrently as the first notation pushes into a fresh layout
+	Race        []Op `json:"race"`
+	RaceSubject Desc `json:"raceSubject"`
+	// context stage: 0 = context done before ListSignatures, k = cancelled after the k-th manifest fetch
+	Cuts []int `json:"cuts"`
+
+	racePinned, raceSharedRepo bool
 }
 
 type FetchObs struct {
@@ -117,6 +124,9 @@ type Obs struct {
 	Probes     []FetchObs `json:"probes"`
 	Reopened   []ListObs  `json:"reopened"`
 	ReopenSame bool       `json:"reopenSame"`
+	RaceOks    []bool     `json:"raceOks"`
+	RaceList   ListObs    `json:"raceList"`
+	Cancelled  []CtxObs   `json:"cancelled"`
 	Retained   bool       `json:"retained"`
 	Unaliased  bool       `json:"unaliased"`
 }
@@ -551,6 +561,36 @@ func (w *world) listObs(repo registry.Repository, tgt *logTarget, q Desc) ListOb
 
 // ---- generator -------------------------------------------------------------------------------
 
+// artifact types that are NOT the notation type but resemble it
+var lookAlikes = []string{
+	"application/vnd.cncf.notary.Signature", "APPLICATION/VND.CNCF.NOTARY.SIGNATURE", "Application/vnd.cncf.notary.signature",
+	"application/vnd.cncf.notary.signature ", " application/vnd.cncf.notary.signature", "application/vnd.cncf.notary.signature\t",
+	"application/vnd.cncf.notary.signature; charset=utf-8", "application/vnd.cncf.notary.signature;v=1",
+	"application/vnd.cncf.notary.signature+json", "application/vnd.cncf.notary.signature.v2", "application/vnd.cncf.notary.signatures",
+	"x-application/vnd.cncf.notary.signature", "application/vnd.cncf.notary", "application/vnd.cncf.notary.signatur",
+	"application/vnd.cncf.notary.signature/", "application/vnd-cncf-notary-signature", "",
+}
+
+func lookAlikeKind(at string) string {
+	switch {
+	case at == "":
+		return "empty"
+	case strings.EqualFold(at, notationT):
+		return "letter-case"
+	case strings.TrimSpace(at) == notationT:
+		return "white-space"
+	case strings.HasPrefix(at, notationT+";"):
+		return "parameter"
+	case strings.HasPrefix(at, notationT):
+		return "suffix"
+	case strings.HasSuffix(at, notationT):
+		return "prefix"
+	case strings.HasPrefix(notationT, at):
+		return "truncated"
+	}
+	return "other"
+}
+
 var annoKeys = []string{"io.cncf.notary.x509chain.thumbprint#S256", "a.first", "org.example.build", "org.opencontainers.image.title", "zz.last", "org.opencontainers.image.created"}
 
 type gen struct {
@@ -668,7 +708,7 @@ func (g *gen) storedLayer() (Layer, Op) {
 func (g *gen) extra() []Op {
 	s := g.subj()
 	mt := g.manifestMt()
-	choice := g.r.Intn(17)
+	choice := g.r.Intn(19)
 	switch choice {
 	case 0: // another artifact type on the exact subject
 		l, b := g.storedLayer()
@@ -804,6 +844,16 @@ func (g *gen) extra() []Op {
 		o.Layers = []Layer{{Mt: p.Mt, Blob: p.Blob, Size: p.Bsize}}
 		o.flavour = "raw:reuses-envelope-of-a-signature"
 		return []Op{o}
+	case 16, 17: // an artifact type that only looks like the notation type, in either manifest format
+		l, b := g.storedLayer()
+		at := lookAlikes[g.r.Intn(len(lookAlikes))]
+		o := g.rawBase(mt, &s, at)
+		o.Layers = []Layer{l}
+		if mt == mtImage && g.r.Intn(2) == 0 {
+			o.TopType = notationT
+		}
+		o.flavour = "foreign:look-alike-type:" + lookAlikeKind(at)
+		return []Op{b, o}
 	default: // very large envelopes (thorough tier only): at the cap and one byte over
 		if !g.thorough || g.big >= 1 || g.r.Intn(6) != 0 {
 			return g.extra()
@@ -856,7 +906,7 @@ func runCase(c *common.Ctx, n int, in *Input, nSubj int, sizes map[int]int64, pr
 			w.keep.allowBig = true // the large-envelope scenario: keep those results too
 		}
 	}
-	obs = Obs{Steps: []StepObs{}, Probes: []FetchObs{}, Reopened: []ListObs{}, Retained: true, Unaliased: true}
+	obs = Obs{Steps: []StepObs{}, Probes: []FetchObs{}, Reopened: []ListObs{}, RaceOks: []bool{}, RaceList: ListObs{Sigs: []SigObs{}}, Cancelled: []CtxObs{}, Retained: true, Unaliased: true}
 	for k := range in.Ops {
 		o := &in.Ops[k]
 		ok, err := w.exec(o)
@@ -919,6 +969,16 @@ func runCase(c *common.Ctx, n int, in *Input, nSubj int, sizes map[int]int64, pr
 		}
 		obs.Probes = append(obs.Probes, w.fetchObs(w.repo, w.tgt, ocispec.Descriptor{MediaType: p.Mt, Digest: dg, Size: p.Size}))
 	}
+	// listings under a done context
+	obs.Cancelled = w.ctxStage(in)
+	// concurrent first pushes into a fresh layout
+	rdir := raceDir(c.WorkDir, n)
+	defer os.RemoveAll(rdir)
+	oks, rl, rerr := raceStage(rdir, in, sizes, in.racePinned, in.raceSharedRepo)
+	if rerr != nil {
+		return obs, fmt.Errorf("concurrency stage: %w", rerr)
+	}
+	obs.RaceOks, obs.RaceList = oks, rl
 	// the history of results: several repositories, repeated rounds, everything kept and re-compared
 	if !w.historyPhase(in, probeRand, dir) {
 		obs.Retained = false
@@ -1044,7 +1104,17 @@ func (w *world) scribbleAndRelist(in *Input, last []ListObs) bool {
 func count(c *common.Ctx, in *Input, obs *Obs) {
 	c.Count("mode=" + in.Mode)
 	c.Count(fmt.Sprintf("reopened=%v", in.ReopenOk))
-	c.Count(fmt.Sprintf("ops=%02d", len(in.Ops)))
+	c.Count(fmt.Sprintf("race: %d concurrent first pushes, pinned=%v", len(in.Race), in.racePinned))
+	for _, ok := range obs.RaceOks {
+		c.Count(fmt.Sprintf("race push ok=%v", ok))
+	}
+	for k, co := range obs.Cancelled {
+		how := "cancelled mid-listing"
+		if in.Cuts[k%len(in.Cuts)] == 0 {
+			how = "done before the call"
+		}
+		c.Count(fmt.Sprintf("listing under a context %s: err=%v", how, co.Err))
+	}
 	pushes := 0
 	for _, o := range in.Ops {
 		c.Count("op:" + o.flavour)
@@ -1134,6 +1204,22 @@ func Run(c *common.Ctx) error {
 				}
 			}
 		}
+		// concurrency stage: 2..6 first pushes into a fresh layout, envelopes distinct
+		in.RaceSubject = subjectDesc(0)
+		in.Race = []Op{}
+		nRace := 2 + c.Rand.Intn(5)
+		if n%3 == 0 {
+			nRace = 2
+		}
+		for k := 0; k < nRace; k++ {
+			o := g.push(in.RaceSubject, "race-push")
+			o.Id = k
+			in.Race = append(in.Race, o)
+		}
+		in.racePinned = c.Rand.Intn(8) != 0
+		in.raceSharedRepo = c.Rand.Intn(2) == 0
+		// context stage
+		in.Cuts = []int{0, 1, 2, 3 + c.Rand.Intn(4)}
 		obs, err := runCase(c, n, in, g.nSubj, g.sizes, c.Rand)
 		if err != nil {
 			return fmt.Errorf("sequence %d: %w", n, err)
@@ -1149,8 +1235,27 @@ func Run(c *common.Ctx) error {
 	return nil
 }
 
+func lookAlikeScenario(g *gen, mt string) []Op {
+	s := subjectDesc(0)
+	ops := []Op{g.push(s, "push")}
+	for _, at := range lookAlikes {
+		l, b := g.storedLayer()
+		o := g.rawBase(mt, &s, at)
+		o.Layers = []Layer{l}
+		o.flavour = "foreign:look-alike-type:" + lookAlikeKind(at)
+		ops = append(ops, b, o)
+	}
+	return append(ops, g.push(s, "push"))
+}
+
 // fixedScenarios make sure every run contains each hostile shape at least once.
 var fixedScenarios = []func(g *gen) []Op{
+	func(g *gen) []Op { // every look-alike artifact type, image manifest branch
+		return lookAlikeScenario(g, mtImage)
+	},
+	func(g *gen) []Op { // every look-alike artifact type, legacy artifact manifest branch
+		return lookAlikeScenario(g, mtArtifact)
+	},
 	func(g *gen) []Op { // two subjects, one signature each, plus one-field variants of subject 0
 		s0, s1 := subjectDesc(0), subjectDesc(1)
 		ops := []Op{g.push(s0, "push"), g.push(s1, "push")}
